@@ -1,4 +1,4 @@
-CONSTANTS Scope = "table" TableLo = 1 NTable = 7 MaxLen = 4 RunCalls = TRUE FreeJitter = FALSE Mutant = "none"
+CONSTANTS Scope = "table" TableLo = 1 NTable = 7 MaxLen = 4 RunCalls = TRUE Transports = {"grpc", "rest"} FreeJitter = FALSE Mutant = "none"
 SPECIFICATION Spec
 INVARIANT Inv_Resolve
 INVARIANT Inv_Loaded
@@ -14,4 +14,5 @@ INVARIANT Inv_Unnamed
 INVARIANT Inv_NoPolicy
 INVARIANT Inv_Override
 INVARIANT Inv_Counts
+INVARIANT Inv_RestDomain
 INVARIANT Inv_Exact
